@@ -138,34 +138,5 @@ pub fn c20_q_twin_get_pixel() {
     check!(d.get_pixel(p) != Some(BinaryColor::On), "twin.must_fail");
 }
 
-#[cfg(feature = "thorough")]
-pub mod thorough {
-    use super::*;
-    /// two displays with one symbolic write each: equal exactly when all cells agree; diff empty iff equal
-    #[cfg_attr(kani, kani::proof, kani::unwind(4100))]
-    pub fn c20_t_eq_diff() {
-        let mut a = MockDisplay::<BinaryColor>::new();
-        let mut b = MockDisplay::<BinaryColor>::new();
-        let p1 = Point::new(small_u(6) as i32, small_u(6) as i32);
-        let p2 = Point::new(small_u(6) as i32, small_u(6) as i32);
-        let (c1, c2) = (binary(), binary());
-        a.draw_pixel(p1, c1);
-        b.draw_pixel(p2, c2);
-        let same = p1 == p2 && c1 == c2;
-        check!((a == b) == same, "C20.eq");
-        reach!(same, "reach.same");
-    }
-    /// affected_area is the tight bounding box of the touched cells (two symbolic writes)
-    #[cfg_attr(kani, kani::proof, kani::unwind(4100))]
-    pub fn c20_t_affected_area() {
-        let mut a = MockDisplay::<BinaryColor>::new();
-        a.set_allow_overdraw(true);
-        let p1 = Point::new(small_u(6) as i32, small_u(6) as i32);
-        let p2 = Point::new(small_u(6) as i32, small_u(6) as i32);
-        a.draw_pixel(p1, BinaryColor::On);
-        a.draw_pixel(p2, BinaryColor::Off);
-        let want = Rectangle::with_corners(p1.component_min(p2), p1.component_max(p2));
-        check!(a.affected_area() == want, "C20.affected_area");
-        check!(MockDisplay::<BinaryColor>::new().affected_area() == Rectangle::zero(), "C20.affected_area_empty");
-    }
-}
+// `==`, `diff` and `affected_area` walk all 4096 cells through iterator stacks: harnesses with two
+// symbolic writes did not finish in 5400 s (thorough cap) and are not registered in any tier.
